@@ -809,9 +809,13 @@ Definition sink_step (s : sink) (o : op) : sink :=
   end.
 
 (* numeric form of the operations (see harness/src/engines/sink.rs) *)
+(* acknowledgement kind 6 of the case syntax = a PUBREC that carries a failure reason code (MQTT 5; the same bytes
+   as kind 2 on MQTT 3.1.1): the sink layer does not look at the reason, it is a PUBREC *)
+Definition ack_kind (k : N) : N := if k =? 6 then 2 else k.
+
 Fixpoint pairs_of (l : list N) : list (N * N) :=
   match l with
-  | k :: id :: r => (k, U16 id) :: pairs_of r
+  | k :: id :: r => (ack_kind k, U16 id) :: pairs_of r
   | _ => []
   end.
 
